@@ -1044,6 +1044,7 @@ func sameSliceLoose(a, b ssa.Value) bool {
 // E-NEXTIDX: s[v + k] (k >= 1 a constant, v a run-time value) needs v + k < len(s): a dominating comparison of v (+ k')
 // with len(s) (- k”) must imply it, or the site is frozen with its reason.
 func runENEXTIDX(c *Ctx, r *Report, reach map[*ssa.Function]bool, scope string, min int) {
+	r.MovedRows("E-NEXTIDX", frozenNextIdx)
 	r.Rule("E-NEXTIDX", "a slice or string read at v + k, k >= 1 a constant and v a run-time position (the look-ahead idiom next := s[i+1]), is dominated by a comparison that implies v + k < len(s) - v + k' < len(s) with k' >= k, v < len(s) - k', or the complement of v >= len(s) - k' on the exit side - or is listed in the frozen table with its reason; functions reachable from "+scope, min)
 	var fs []*ssa.Function
 	for f := range reach {
